@@ -25,6 +25,8 @@ MUTATORS = ('append', 'inval', 'invalt', 'resize')
 # The property, as a reference: the logical stream and the lower bound of what is retained
 # ---------------------------------------------------------------------------
 class Ref:
+    padtok = 'F'       # 'I' when the filled reads use the constructor's own fill value (case['samefill'])
+
     def __init__(self, cap):
         self.cap, self.stream, self.lo, self.next = cap, [], 0, 0
 
@@ -65,7 +67,7 @@ class Ref:
     def filled(self, lb, ub):
         if lb > ub:
             return None
-        return toks([self.stream[k] if self.lo <= k < self.hi else 'F' for k in range(lb, ub)])
+        return toks([self.stream[k] if self.lo <= k < self.hi else self.padtok for k in range(lb, ub)])
 
     def probe(self):
         lo, hi = self.lo, self.hi
@@ -115,6 +117,8 @@ class Impl:
         size = cap / fs if (case.get('exact') and fs in POW2) else (cap - 0.5) / fs
         self.b = SignalBuffer(fs=fs, size=size, fill_value=PADI, n_channels=self.nch or None)
         self.next = 0
+        # fill value of the filled reads: normally distinct from the constructor's, in `samefill` cases equal to it
+        self.padf = PADI if case.get('samefill') else PADF
 
     def bounds(self):
         return f'{int(self.b.get_samples_lb())} {int(self.b.get_samples_ub())}'
@@ -157,11 +161,11 @@ class Impl:
             return 'ok ' + tokens(b.get_range(), self.nch)
         if name == 'filled':
             dl, du = (op[3], op[4]) if len(op) > 3 else (0.0, 0.0)
-            return 'ok ' + tokens(b.get_range_filled((op[1] + dl) / fs, (op[2] + du) / fs, PADF), self.nch)
+            return 'ok ' + tokens(b.get_range_filled((op[1] + dl) / fs, (op[2] + du) / fs, self.padf), self.nch)
         if name == 'latest':
             return 'ok ' + tokens(b.get_latest(op[1] / fs, op[2] / fs), self.nch)
         if name == 'latestf':
-            return 'ok ' + tokens(b.get_latest(op[1] / fs, op[2] / fs, fill_value=PADF), self.nch)
+            return 'ok ' + tokens(b.get_latest(op[1] / fs, op[2] / fs, fill_value=self.padf), self.nch)
         if name == 'probe':
             lb, ub = int(b.get_samples_lb()), int(b.get_samples_ub())
             parts = [f'P {lb} {ub}',
@@ -169,16 +173,18 @@ class Impl:
                      self.rd(b.get_range_samples, lb - 1, ub),
                      self.rd(b.get_range_samples, lb, ub + 1),
                      self.rd(b.get_range_samples, lb + 1, ub - 1),
-                     self.rd(b.get_range_filled, (lb - 2) / fs, (ub + 1) / fs, PADF),
-                     self.rd(b.get_range_filled, (lb - 3) / fs, (lb - 1) / fs, PADF),
-                     self.rd(b.get_range_filled, (ub + 1) / fs, (ub + 3) / fs, PADF),
-                     self.rd(b.get_latest, -2 / fs, 0, fill_value=PADF)]
+                     self.rd(b.get_range_filled, (lb - 2) / fs, (ub + 1) / fs, self.padf),
+                     self.rd(b.get_range_filled, (lb - 3) / fs, (lb - 1) / fs, self.padf),
+                     self.rd(b.get_range_filled, (ub + 1) / fs, (ub + 3) / fs, self.padf),
+                     self.rd(b.get_latest, -2 / fs, 0, fill_value=self.padf)]
             return ' | '.join(parts)
         raise KeyError(name)
 
 
-def model_line(op):
+def model_line(op, samefill=False):
     name = op[0]
+    if samefill and name in ('filled', 'latestf', 'probe'):
+        return ' '.join([name + 'i'] + [str(v) for v in op[1:3]])
     if name in ('append', 'inval', 'resize', 'read', 'latest', 'latestf'):
         return ' '.join([name] + [str(v) for v in op[1:]])
     if name == 'invalt':
@@ -241,7 +247,7 @@ class C14(Spec):
         def rec(ops, d):
             count[0] += 1
             yield {'kind': 'exh', 'cap': cap, 'nch': 2 if count[0] % 4 == 0 else 0, 'fs': 1.0, 'exact': True,
-                   'ops': ops + [['probe']]}
+                   'ops': ops + [['probe']], 'samefill': count[0] % 3 == 0}
             if d == 0:
                 return
             ref = Ref(cap)
@@ -307,7 +313,8 @@ class C14(Spec):
             ops.append(op)
         ops.append(['probe'])
         return {'kind': 'float' if floats and kind == 'rand' else kind, 'cap': cap,
-                'nch': rng.choice([0, 0, 2, 3]), 'fs': fs, 'exact': rng.random() < 0.5, 'ops': ops}
+                'nch': rng.choice([0, 0, 2, 3]), 'fs': fs, 'exact': rng.random() < 0.5, 'ops': ops,
+                'samefill': rng.random() < 0.3}
 
     def boundary_cases(self, rng):
         """From one random reachable state: sweeps at every offset -2..+2 around both bounds."""
@@ -368,7 +375,7 @@ class C14(Spec):
 
     # ---- the two sides --------------------------------------------------
     def model_lines(self, c):
-        return [f"new {c['cap']}"] + [model_line(o) for o in c['ops']]
+        return [f"new {c['cap']}"] + [model_line(o, c.get('samefill', False)) for o in c['ops']]
 
     def impl_lines(self, c):
         im = Impl(c)
@@ -388,6 +395,8 @@ class C14(Spec):
         if out[0] != 'ok 0 0':
             return f'a new buffer reports bounds {out[0]!r}, required 0 0'
         ref = Ref(c['cap'])
+        if c.get('samefill'):
+            ref.padtok = 'I'
         for k, (op, got) in enumerate(zip(ops, out[1:])):
             name = op[0]
             where = f'after {ops[:k]} (capacity {c["cap"]}, channels {c["nch"] or 1}), {op}'
